@@ -1,0 +1,209 @@
+//go:build verif
+
+package evidence
+
+// Contracts for the deductive checks in /verif (read by /verif/govc; comment-only, no code).
+
+//@ import types github.com/tendermint/tendermint/types
+
+// Database keys of a piece of evidence. `pure`: checked to be functions of the evidence value (Height, Hash).
+//@ func keySuffix
+//@   pure
+//@ func keyPending
+//@   pure
+//@   ensures prefix: len(result) >= 1 && result[0] == baseKeyPending
+//@ func keyCommitted
+//@   pure
+//@   ensures prefix: len(result) >= 1 && result[0] == baseKeyCommitted
+
+//@ spec func isPendingEv(evpool *Pool, ev types.Evidence) bool = dbhas(evpool.evidenceStore, keyPending(ev))
+//@ spec func isCommittedEv(evpool *Pool, ev types.Evidence) bool = dbhas(evpool.evidenceStore, keyCommitted(ev))
+// The reported size is the number of pending items in the database.
+//@ spec func sizeInv(evpool *Pool) bool = evpool.evidenceSize == dbcount(evpool.evidenceStore, baseKeyPending)
+
+//@ func Pool.isPending
+//@   assigns nothing
+//@   ensures def: result <==> isPendingEv(evpool, evidence)
+//@ func Pool.isCommitted
+//@   assigns nothing
+//@   ensures def: result <==> isCommittedEv(evpool, evidence)
+
+// Evidence is expired only if it is too old by BOTH limits.
+//@ func Pool.isExpired
+//@   assigns nothing
+//@   ensures def: result <==> (evpool.state.LastBlockHeight - height > evpool.state.ConsensusParams.Evidence.MaxAgeNumBlocks && evpool.state.LastBlockTime - time > evpool.state.ConsensusParams.Evidence.MaxAgeDuration)
+
+//@ func Pool.addPendingEvidence
+//@   requires inv: sizeInv(evpool)
+//@   requires room: evpool.evidenceSize < 4294967295
+//@   ensures inv: sizeInv(evpool)
+//@   ensures added: result == nil ==> isPendingEv(evpool, ev)
+//@   ensures grow: evpool.evidenceSize <= old(evpool.evidenceSize) + 1
+//@   ensures committed_same: forall(k, k != keyPending(ev) ==> (dbhas(evpool.evidenceStore, k) <==> old(dbhas(evpool.evidenceStore, k))))
+
+//@ func Pool.removePendingEvidence
+//@   requires inv: sizeInv(evpool)
+//@   requires present: isPendingEv(evpool, evidence)
+//@   ensures inv: sizeInv(evpool)
+//@   ensures gone: !isPendingEv(evpool, evidence)
+//@   ensures others: forall(k, k != keyPending(evidence) ==> (dbhas(evpool.evidenceStore, k) <==> old(dbhas(evpool.evidenceStore, k))))
+
+//@ import tmproto github.com/tendermint/tendermint/proto/tendermint/types
+// ASSUMED: protobuf marshalling does not touch existing state.
+//@ extern tmproto.Evidence.Marshal
+//@   assigns nothing
+
+// Committing evidence: afterwards every item of the list is committed and none is pending; the size stays exact.
+//@ func Pool.markEvidenceAsCommitted
+//@   requires inv: sizeInv(evpool)
+//@   ensures inv: sizeInv(evpool)
+//@   ensures unpending: forall(i, 0, len(evidence), !isPendingEv(evpool, evidence[i]))
+//@   loop 1 invariant idx: 0 <= rangeindex + 1 && rangeindex + 1 <= len(evidence)
+//@   loop 1 invariant inv: sizeInv(evpool)
+//@   loop 1 invariant unpending: forall(i, 0, rangeindex + 1, !isPendingEv(evpool, evidence[i]))
+
+//@ import clist github.com/tendermint/tendermint/libs/clist
+//@ import sm github.com/tendermint/tendermint/state
+
+// ASSUMED (trusted): only the in-memory gossip list changes.
+//@ func Pool.removeEvidenceFromList
+//@   trusted
+//@   assigns all(clist.CList.len), all(clist.CList.head), all(clist.CList.tail), all(clist.CList.wg), all(clist.CList.waitCh), all(clist.CElement.owner), all(clist.CElement.removed), all(clist.CElement.next), all(clist.CElement.prev)
+
+// ASSUMED of the other components the pool reads from: the block store and the state store are not modified by reads,
+// a loaded validator set is well formed, and for one height the same block meta is returned.
+//@ extern BlockStore.LoadBlockMeta
+//@   pure
+//@   assigns nothing
+//@ extern BlockStore.LoadBlockCommit
+//@   pure
+//@   assigns nothing
+//@ extern BlockStore.Height
+//@   pure
+//@   assigns nothing
+//@ extern sm.Store.LoadValidators
+//@   assigns result0.loadedAt
+//@   ensures wf: result1 == nil ==> (result0 != nil && wfPowers(result0) && wfCached(result0) && result0.loadedAt == arg0)
+
+// A duplicate vote proves equivocation against the validator set of its height: a member with that address signed two
+// votes of the same height, round and type for different blocks; the stated powers are the set's.
+//@ func VerifyDuplicateVote
+//@   assigns valSet.totalVotingPower
+//@   ensures wf: wfCached(valSet)
+//@   sets lastDupVerified = ref(e) when result == nil
+//@   sets lastDupVals = ref(valSet) when result == nil
+//@   requires wf: wfPowers(valSet) && wfCached(valSet) && e != nil && e.VoteA != nil && e.VoteB != nil
+//@   ensures member: result == nil ==> idxOf(valSet, e.VoteA.ValidatorAddress) >= 0
+//@   ensures same: result == nil ==> (e.VoteA.Height == e.VoteB.Height && e.VoteA.Round == e.VoteB.Round && e.VoteA.Type == e.VoteB.Type && e.VoteA.ValidatorAddress == e.VoteB.ValidatorAddress)
+//@   ensures differ: result == nil ==> !(e.VoteA.BlockID == e.VoteB.BlockID)
+//@   ensures power: result == nil ==> (valSet.Validators[idxOf(valSet, e.VoteA.ValidatorAddress)].VotingPower == e.ValidatorPower && totalPower(valSet, len(valSet.Validators)) == e.TotalVotingPower)
+//@   ensures sigA: result == nil ==> sigOK(valSet.Validators[idxOf(valSet, e.VoteA.ValidatorAddress)].PubKey,
+//@     | signBytes(chainID, e.VoteA.Type, e.VoteA.Height, e.VoteA.Round, e.VoteA.BlockID.Hash, e.VoteA.BlockID.PartSetHeader.Total, e.VoteA.BlockID.PartSetHeader.Hash, e.VoteA.Timestamp), e.VoteA.Signature)
+//@   ensures sigB: result == nil ==> sigOK(valSet.Validators[idxOf(valSet, e.VoteA.ValidatorAddress)].PubKey,
+//@     | signBytes(chainID, e.VoteB.Type, e.VoteB.Height, e.VoteB.Round, e.VoteB.BlockID.Hash, e.VoteB.BlockID.PartSetHeader.Total, e.VoteB.BlockID.PartSetHeader.Hash, e.VoteB.Timestamp), e.VoteB.Signature)
+
+// Ghost witnesses of the kind-specific verification: which evidence was last verified successfully, and against which
+// validator set (reference); loadedAt is the height a validator set was loaded for.
+//@ ghost var lastDupVerified int
+//@ ghost var lastDupVals int
+//@ ghost var lastLCAVerified int
+//@ ghost var lastLCAVals int
+//@ ghost field types.ValidatorSet.loadedAt int64
+
+// verify: evidence is accepted only with the block time of its height, not expired by both limits, and after the
+// kind-specific verifier succeeded on it against the validator set loaded for its height.
+//@ func Pool.verify
+//@   requires basic: evBasic(evidence)
+//@   assigns lastDupVerified, lastDupVals, lastLCAVerified, lastLCAVals, all(types.ValidatorSet.totalVotingPower), all(types.ValidatorSet.loadedAt)
+//@   ensures keepwf: forall(v, old(wfCached(cast(*types.ValidatorSet, v))) ==> wfCached(cast(*types.ValidatorSet, v)))
+//@   ensures meta: result == nil ==> imethod(evpool.blockStore, LoadBlockMeta, imethod(evidence, Height)) != nil
+//@   ensures time: result == nil ==> imethod(evidence, Time) == imethod(evpool.blockStore, LoadBlockMeta, imethod(evidence, Height)).Header.Time
+//@   ensures fresh: result == nil ==> !(evpool.state.LastBlockTime - imethod(evidence, Time) > evpool.state.ConsensusParams.Evidence.MaxAgeDuration &&
+//@     | evpool.state.LastBlockHeight - imethod(evidence, Height) > evpool.state.ConsensusParams.Evidence.MaxAgeNumBlocks)
+//@   ensures dup: (result == nil && typeis(evidence, *types.DuplicateVoteEvidence)) ==>
+//@     | (lastDupVerified == payload(evidence) && cast(*types.ValidatorSet, lastDupVals).loadedAt == imethod(evidence, Height))
+//@   ensures lca: (result == nil && typeis(evidence, *types.LightClientAttackEvidence)) ==>
+//@     | (lastLCAVerified == payload(evidence) && cast(*types.ValidatorSet, lastLCAVals).loadedAt == imethod(evidence, Height))
+//@   ensures kind: result == nil ==> (typeis(evidence, *types.DuplicateVoteEvidence) || typeis(evidence, *types.LightClientAttackEvidence))
+
+// evBasic: what ValidateBasic (run by the callers before verification) guarantees about the shape of evidence.
+//@ spec func evBasic(ev types.Evidence) bool =
+//@   | (typeis(ev, *types.DuplicateVoteEvidence) ==> (cast(*types.DuplicateVoteEvidence, payload(ev)) != nil && cast(*types.DuplicateVoteEvidence, payload(ev)).VoteA != nil && cast(*types.DuplicateVoteEvidence, payload(ev)).VoteB != nil)) &&
+//@   | (typeis(ev, *types.LightClientAttackEvidence) ==> lcaBasic(cast(*types.LightClientAttackEvidence, payload(ev))))
+//@ spec func lcaBasic(e *types.LightClientAttackEvidence) bool = e != nil && e.ConflictingBlock != nil && e.ConflictingBlock.SignedHeader != nil &&
+//@   | e.ConflictingBlock.SignedHeader.Header != nil && e.ConflictingBlock.SignedHeader.Commit != nil && e.ConflictingBlock.ValidatorSet != nil &&
+//@   | wfPowers(e.ConflictingBlock.ValidatorSet) && wfCached(e.ConflictingBlock.ValidatorSet) && len(e.ConflictingBlock.SignedHeader.Commit.Signatures) <= 2147483647
+
+//@ func getSignedHeader
+//@   assigns nothing
+//@   ensures ok: result1 == nil ==> (result0 != nil && result0.Header != nil && result0.Commit != nil)
+//@   ensures src: result1 == nil ==> (result0.Header == &imethod(blockStore, LoadBlockMeta, height).Header && result0.Commit == imethod(blockStore, LoadBlockCommit, height))
+
+// ASSUMED: header hashing is a function of the header object (headers are immutable once stored / received).
+//@ extern types.Header.Hash
+//@   pure
+//@   assigns nothing
+//@ extern types.LightBlock.Hash
+//@   pure
+//@   assigns nothing
+
+// A light-client attack is accepted only if (a) for a lunatic attack, at least the default trust level of the common
+// validator set signed the conflicting commit, (b) +2/3 of the conflicting validator set signed the conflicting block,
+// (c) the stated total power is the common set's.
+//@ func VerifyLightClientAttack
+//@   requires wf: wfPowers(commonVals) && wfCached(commonVals) && lcaBasic(e) && commonHeader != nil && commonHeader.Header != nil && trustedHeader != nil && trustedHeader.Header != nil
+//@   assigns commonVals.totalVotingPower, e.ConflictingBlock.ValidatorSet.totalVotingPower
+//@   ensures wf: wfCached(commonVals) && wfCached(e.ConflictingBlock.ValidatorSet)
+//@   sets lastLCAVerified = ref(e) when result == nil
+//@   sets lastLCAVals = ref(commonVals) when result == nil
+//@   ensures trusting: (result == nil && commonHeader.Header.Height != e.ConflictingBlock.SignedHeader.Header.Height) ==>
+//@     | exists(k, 0, len(e.ConflictingBlock.SignedHeader.Commit.Signatures) + 1,
+//@     |   trustTally(commonVals, e.ConflictingBlock.SignedHeader.Commit, trustedHeader.Header.ChainID, k) * light.DefaultTrustLevel.Denominator > totalPower(commonVals, len(commonVals.Validators)) * light.DefaultTrustLevel.Numerator)
+//@   ensures commit: result == nil ==> exists(k, 0, len(e.ConflictingBlock.SignedHeader.Commit.Signatures) + 1,
+//@     |   3 * tally(e.ConflictingBlock.ValidatorSet, e.ConflictingBlock.SignedHeader.Commit, trustedHeader.Header.ChainID, k) > 2 * totalPower(e.ConflictingBlock.ValidatorSet, len(e.ConflictingBlock.ValidatorSet.Validators)))
+//@   ensures height: result == nil ==> e.ConflictingBlock.SignedHeader.Commit.Height == e.ConflictingBlock.SignedHeader.Header.Height
+//@   ensures power: result == nil ==> e.TotalVotingPower == totalPower(commonVals, len(commonVals.Validators))
+//@ import light github.com/tendermint/tendermint/light
+
+// ASSUMED (trusted; loops over validator lists not yet under contract): the ABCI component check only reads.
+//@ func validateABCIEvidence
+//@   trusted
+//@   assigns commonVals.totalVotingPower
+//@   ensures wf: wfCached(commonVals)
+
+// Evidence in a proposed block: the reported size stays exact, and a nil result means no two items share a hash.
+//@ func Pool.CheckEvidence
+//@   requires inv: sizeInv(evpool) && evpool.evidenceSize + len(evList) < 4294967295
+//@   requires basic: forall(i, 0, len(evList), evBasic(evList[i]))
+//@   ensures inv: sizeInv(evpool)
+//@   ensures distinct: result == nil ==> forall(i, 0, len(evList), forall(j, 0, i, imethod(evList[j], Hash) != imethod(evList[i], Hash)))
+//@   loop 1 invariant idx: 0 <= rangeindex + 1 && rangeindex + 1 <= len(evList) && len(hashes) == len(evList)
+//@   loop 1 invariant inv: sizeInv(evpool) && evpool.evidenceSize <= old(evpool.evidenceSize) + rangeindex + 1
+//@   loop 1 invariant basic: forall(i, 0, len(evList), evBasic(evList[i]))
+//@   loop 1 invariant hashes: forall(j, 0, rangeindex + 1, hashes[j] == imethod(evList[j], Hash))
+//@   loop 1 invariant distinct: forall(i, 0, rangeindex + 1, forall(j, 0, i, imethod(evList[j], Hash) != imethod(evList[i], Hash)))
+//@   loop 2 invariant inner: -1 <= i && i < idx && forall(j, i + 1, idx, hashes[j] != hashes[idx])
+
+//@ func Pool.AddEvidence
+//@   requires inv: sizeInv(evpool) && evpool.evidenceSize < 4294967295
+//@   requires basic: evBasic(ev)
+//@   ensures inv: sizeInv(evpool)
+//@   ensures admitted: result == nil ==> (old(isPendingEv(evpool, ev)) || old(isCommittedEv(evpool, ev)) || isPendingEv(evpool, ev))
+//@   ensures verified: (result == nil && !old(isPendingEv(evpool, ev)) && !old(isCommittedEv(evpool, ev))) ==>
+//@     | ((typeis(ev, *types.DuplicateVoteEvidence) ==> lastDupVerified == payload(ev)) && (typeis(ev, *types.LightClientAttackEvidence) ==> lastLCAVerified == payload(ev)))
+
+// Conflicting votes reported by consensus become pending evidence carrying the block time and the validator set of
+// THEIR height (asserted at every point where such evidence is saved); the size stays exact.
+//@ func Pool.processConsensusBuffer
+//@   requires inv: sizeInv(evpool) && evpool.evidenceSize + len(evpool.consensusBuffer) < 4294967295
+//@   requires votes: forall(i, 0, len(evpool.consensusBuffer), evpool.consensusBuffer[i].VoteA != nil && evpool.consensusBuffer[i].VoteB != nil)
+//@   requires lastvals: state.LastValidators != nil ==> (wfPowers(state.LastValidators) && wfCached(state.LastValidators))
+//@   ensures inv: sizeInv(evpool)
+//@   ensures emptied: len(evpool.consensusBuffer) == 0
+//@   atcall Pool.addPendingEvidence time: dve != nil ==> ((voteSet.VoteA.Height == state.LastBlockHeight && dve.Timestamp == state.LastBlockTime) ||
+//@     | (voteSet.VoteA.Height < state.LastBlockHeight && imethod(evpool.blockStore, LoadBlockMeta, voteSet.VoteA.Height) != nil &&
+//@     |  dve.Timestamp == imethod(evpool.blockStore, LoadBlockMeta, voteSet.VoteA.Height).Header.Time))
+//@   loop 1 invariant idx: 0 <= rangeindex + 1 && rangeindex + 1 <= len(evpool.consensusBuffer)
+//@   loop 1 invariant inv: sizeInv(evpool) && evpool.evidenceSize <= old(evpool.evidenceSize) + rangeindex + 1
+//@   loop 1 invariant buf: evpool.consensusBuffer == old(evpool.consensusBuffer)
+//@   loop 1 invariant lastvals: state.LastValidators != nil ==> wfCached(state.LastValidators)
